@@ -100,6 +100,11 @@ Theorem C01_publish_exact : forall cfg lookup now b pg pub req opts topic args k
 Proof. exact publish_exact. Qed.
 Print Assumptions C01_publish_exact.
 
+(** the realm's lookup meets [lookup_ok] (the meta session carries the meta id) *)
+Theorem C01_realm_lookup_ok : forall r, s_id (r_meta r) = meta_id -> lookup_ok (lookup r).
+Proof. exact realm_lookup_ok. Qed.
+Print Assumptions C01_realm_lookup_ok.
+
 (** exactly once: distinct (subscription, recipient) pairs get distinct EVENTs *)
 Theorem C01_event_for_inj : forall lookup b pub pg opts topic args kw s1 r1 rs1 s2 r2 rs2,
     core_wf b -> lookup_ok lookup ->
